@@ -1530,7 +1530,7 @@ fn catalogue() -> Vec<Entry> {
 
     // ---- export: -p/--print; "If no names are given, or if the -p option is given, ... displayed"
     let ex = "a=1; export b=2; export -- -c=3";
-    v.push(e("export").setup(ex).args(&["a"]));
+    v.push(e("export").setup(ex).args(&["a"]).bad(&["-+q=1"], "malformed-unknown-short").bad(&["+-q"], "malformed-unknown-short"));
     v.push(e("export").setup(ex).args(&["a=5", "d", "-e=6"]));
     v.push(e("export").setup(ex).o("p"));
     v.push(e("export").setup(ex).o("p").args(&["b"]));
@@ -1540,7 +1540,7 @@ fn catalogue() -> Vec<Entry> {
 
     // ---- readonly: -p/--print
     let ro = "a=1; readonly b=2";
-    v.push(e("readonly").setup(ro).args(&["a"]));
+    v.push(e("readonly").setup(ro).args(&["a"]).bad(&["-+q=1"], "malformed-unknown-short").bad(&["+-q"], "malformed-unknown-short"));
     v.push(e("readonly").setup(ro).args(&["a=5", "d"]));
     v.push(e("readonly").setup(ro).o("p"));
     v.push(e("readonly").setup(ro).o("p").args(&["b"]));
@@ -1550,7 +1550,7 @@ fn catalogue() -> Vec<Entry> {
     // ---- typeset: -f/--functions -g/--global -p/--print -r/--readonly -x/--export, +r +x
     let ts = "a=1; export b=2; readonly c=3; f() { :; }; g() { :; }; typeset -fr g";
     let infn = "wrapfn() { {CMD}; }\nwrapfn";
-    v.push(e("typeset").setup(ts).o("x").args(&["a"]));
+    v.push(e("typeset").setup(ts).o("x").args(&["a"]).bad(&["-+x", "q"], "malformed-unknown-short").bad(&["+-x", "q"], "malformed-unknown-short"));
     v.push(e("typeset").setup(ts).o("r").args(&["a", "n=1"]));
     v.push(e("typeset").setup(ts).o("rx").free().args(&["a=3"]));
     v.push(e("typeset").setup(ts).plus("x").args(&["b"]));
@@ -1657,6 +1657,19 @@ fn catalogue_part2(v: &mut Vec<Entry>) {
     v.push(e("getopts").setup("set -- -b y z").args(&["ab:", "o"]));
     v.push(e("getopts").args(&[":a", "o", "-z"]));
     v.push(e("getopts").args(&["a", "o", "--", "-a"]).exp(Exp::St(1)));
+    // a whole getopts loop: grouped options mean the same as separate ones, also after an option
+    // character that is not in the option string (silent mode: no diagnostic)
+    v.push(
+        e("getopts")
+            .wrap("while {CMD}; do echo \"<$o|$OPTARG>\"; done; OPTIND=1; unset OPTARG o")
+            .manual(&[
+                &[":ab:", "o", "-x", "-a", "-b", "foo", "rest"][..],
+                &[":ab:", "o", "-xab", "foo", "rest"],
+                &[":ab:", "o", "-xa", "-bfoo", "rest"],
+                &[":ab:", "o", "-x", "-abfoo", "--", "rest"],
+                &[":ab:", "o", "-x", "-ab", "foo", "rest"],
+            ]),
+    );
 
     // ---- eval, exec: no options
     v.push(e("eval").args(&["'n=1; echo hi'"]));
